@@ -60,6 +60,71 @@ def _opaque(t):
     return isinstance(t, tuple) and bool(t) and t[0] in ("acc", "carried", "after", "unknown", "mutated")
 
 
+def scalar_constants(pkg, cls):
+    """(module-level, class-level) scalar constants a method of `cls` may read: {name: ast.Constant} for names bound exactly once
+    at module level of the class's file to a str / number literal, and for class attributes (MRO) bound to such a literal that no
+    method stores through self / cls (and no setattr is used)."""
+    cache = pkg.__dict__.setdefault("_scalar_consts", {})
+    if cls not in cache:
+        ci = pkg.cls(cls)
+        mod = pkg.modules.get(ci.file)
+        count, mc = {}, {}
+        for n in ast.walk(mod) if mod is not None else ():
+            if isinstance(n, ast.Name) and isinstance(n.ctx, (ast.Store, ast.Del)):
+                count[n.id] = count.get(n.id, 0) + 1
+            elif isinstance(n, (ast.Global, ast.Nonlocal)):
+                for nm in n.names:
+                    count[nm] = count.get(nm, 0) + 2
+            elif isinstance(n, ast.arg):
+                count[n.arg] = count.get(n.arg, 0) + 2
+        for st in mod.body if mod is not None else ():
+            if isinstance(st, ast.Assign) and len(st.targets) == 1 and isinstance(st.targets[0], ast.Name) and count.get(st.targets[0].id) == 1 \
+                    and isinstance(st.value, ast.Constant) and isinstance(st.value.value, (str, int, float)) and not isinstance(st.value.value, bool):
+                mc[st.targets[0].id] = st.value
+        mro = [c for c in pkg.mro(cls) if c in pkg.classes]
+        stored = set()
+        for c in mro:
+            for fn in pkg.classes[c].methods.values():
+                for n in ast.walk(fn):
+                    if isinstance(n, ast.Attribute) and isinstance(n.ctx, (ast.Store, ast.Del)):
+                        stored.add(n.attr)
+                    elif isinstance(n, ast.Call) and isinstance(n.func, ast.Name) and n.func.id in ("setattr", "delattr"):
+                        stored.add("*")
+        cc = {}
+        for c in reversed(mro):
+            for nm, node in pkg.classes[c].attrs.items():
+                if isinstance(node, ast.Constant) and isinstance(node.value, (str, int, float)) and not isinstance(node.value, bool) and nm not in stored \
+                        and "*" not in stored and not any(nm in pkg.classes[k].methods for k in mro):
+                    cc[nm] = node
+                else:
+                    cc.pop(nm, None)
+        cache[cls] = (mc, cc, set(mro))
+    return cache[cls]
+
+
+def inline_constants(func, pkg, cls):
+    """`func` (modified in place) with the reads of scalar constants hoisted to module / class level (`_ZERO = "0.0"`, `self._ZERO`,
+    `TemplateLoader._ZERO`) replaced by the literal: a named constant is the value it names"""
+    mc, cc, mro = scalar_constants(pkg, cls)
+    if not mc and not cc:
+        return func
+    local = {n.id for n in ast.walk(func) if isinstance(n, ast.Name) and isinstance(n.ctx, (ast.Store, ast.Del))} | {a.arg for a in ast.walk(func) if isinstance(a, ast.arg)}
+
+    class Tr(ast.NodeTransformer):
+        def visit_Name(self, n):
+            if isinstance(n.ctx, ast.Load) and n.id in mc and n.id not in local:
+                return ast.copy_location(ast.Constant(value=mc[n.id].value), n)
+            return n
+
+        def visit_Attribute(self, n):
+            if isinstance(n.ctx, ast.Load) and isinstance(n.value, ast.Name) and n.attr in cc and (n.value.id in ("self", "cls") or n.value.id in mro) \
+                    and (n.value.id not in local or n.value.id in ("self", "cls")):
+                return ast.copy_location(ast.Constant(value=cc[n.attr].value), n)
+            return self.generic_visit(n)
+    Tr().visit(func)
+    return func
+
+
 def record_fields(pkg, name):
     """constructor field order of a plain record class of the package: a `typing.NamedTuple` / `@dataclass` class (its annotated
     names), or a module-level `Name = namedtuple("Name", [..] | "a b c")`; None for anything else"""
@@ -94,10 +159,16 @@ def record_fields(pkg, name):
 def pure_helper_resolver(pkg, cls):
     """name -> FunctionDef of a helper method of `cls` that may be read as the value it returns (valueflow `resolver`): any method
     except the anchors, provided it leaves its arguments alone (an in-place edit of a list handed in would be lost in the value view)"""
+    import copy as _copy
+    folded = {}
+
     def resolver(name, _pkg=pkg):
         _, f = _pkg.resolve(cls, name)
         if f is None or name in _ANCHORS:
             return None
+        if name not in folded:
+            folded[name] = inline_constants(_copy.deepcopy(f), _pkg, cls)
+        f = folded[name]
         ps = {a.arg for a in f.args.args + f.args.kwonlyargs}
         for n in ast.walk(f):
             if isinstance(n, ast.Call) and isinstance(n.func, ast.Attribute) and n.func.attr in _MUTATORS:
@@ -123,14 +194,22 @@ class OdeModel:
         pkg = package(tree)
         self.func = pkg.method("TemplateLoader", "_prepare_ode_content")
         # helper procedures of TemplateLoader that fill the lists they are handed are expanded in place
+        import copy as _copy
+        _folded = {}
+
+        def _fold(f):
+            # (helpers are read with the named scalar constants of the module / class replaced by their literals, like the method itself)
+            if f is not None and id(f) not in _folded:
+                _folded[id(f)] = inline_constants(_copy.deepcopy(f), pkg, "TemplateLoader")
+            return _folded[id(f)] if f is not None else None
+
         def _resolver(name, _pkg=pkg):
             _, f = _pkg.resolve("TemplateLoader", name)
-            return f
+            return _fold(f)
         # ... and small loop-free helper FUNCTIONS (`self._without(lst, x)` returning a value) are read as the value they return
         _pure_resolver = pure_helper_resolver(pkg, "TemplateLoader")
         # ... and a helper METHOD with loops whose call is a whole statement (`jac = self._build(n, entries)`) is replaced by its
         # statements (parameters renamed to the arguments, locals made unique): an extracted block is still this code
-        import copy as _copy
         from .normalize import inline_stmt_calls
 
         def _stmt_resolver(call, _pkg=pkg):
@@ -138,9 +217,9 @@ class OdeModel:
             if isinstance(f_, ast.Attribute) and isinstance(f_.value, ast.Name) and f_.value.id in ("self", "cls") and f_.attr not in _ANCHORS:
                 _, callee = _pkg.resolve("TemplateLoader", f_.attr)
                 if callee is not None and callee is not self.func:
-                    return callee, f_.value
+                    return _fold(callee), f_.value
             return None
-        func = _copy.deepcopy(self.func)
+        func = inline_constants(_copy.deepcopy(self.func), pkg, "TemplateLoader")
         # a generator method that hands records to a consuming loop (`for rec in self._iter_terms(..): rhs[rec.row] += ..`) is put
         # back in place, and a namedtuple / dataclass that only carries the values across is replaced by its fields
         from .normalize import inline_generator_loops, scalarise_records
